@@ -293,6 +293,7 @@ func FamilyRef(thorough bool, seed int64) []*Skeleton {
 			map[string]string{"p": "#/$defs/t", "a": "#top", "n": "#/$defs/u/$defs/v", "d": "#deep", "self": "#"}, nil, false)
 		mk("local-missing-anchor", root, J{"$defs": J{"t": J{"$anchor": "top", "const": 1}}}, map[string]string{"a": "#nope"}, nil, false)
 		mk("local-missing-pointer", root, J{"$defs": J{"t": J{"const": 1}}}, map[string]string{"a": "#/$defs/zz"}, nil, false)
+		mk("local-absent-keyword", root, J{"$defs": J{"t": J{"const": 1}}}, map[string]string{"a": "#/not", "b": "#/$defs/t/items", "c": "#/additionalProperties"}, nil, false)
 		mk("local-nonschema-pointer", root, J{"$defs": J{"t": J{"const": 1}}}, map[string]string{"a": "#/$defs/t/const"}, nil, false)
 		if !absolute || strings.HasPrefix(root.id, "urn:") {
 			// relative references need a hierarchical absolute base (under a urn: base
@@ -382,4 +383,79 @@ func sortedKeysS(m map[string]string) []string {
 	}
 	sort.Strings(ks)
 	return ks
+}
+
+// FamilyPtr: "#"+percent-encoded JSON Pointer of every subschema location of a maximal
+// document, resolved end to end through Resolve and validated (C17-K3).
+func FamilyPtr(draft int) []*Skeleton {
+	keys := []string{"", "/", "~", "~0", "~1", "%", " ", "é", "0", "-", "a/b", "a", "01", "+1", "%25", "a b"}
+	esc := func(k string) string {
+		return strings.ReplaceAll(strings.ReplaceAll(k, "~", "~0"), "/", "~1")
+	}
+	pct := func(s string) string {
+		var sb strings.Builder
+		for i := 0; i < len(s); i++ {
+			c := s[i]
+			if c >= 'a' && c <= 'z' || c >= 'A' && c <= 'Z' || c >= '0' && c <= '9' || strings.IndexByte("-._~/$+", c) >= 0 {
+				sb.WriteByte(c)
+			} else {
+				fmt.Fprintf(&sb, "%%%02X", c)
+			}
+		}
+		return sb.String()
+	}
+	next := 0
+	mark := func() J { next++; return J{"const": next} }
+	mx := J{}
+	var ptrs []string
+	single := []string{"additionalProperties", "propertyNames", "contains", "not", "if", "then", "else"}
+	arrays := []string{"allOf", "anyOf", "oneOf"}
+	maps := []string{"properties", "patternProperties"}
+	if draft == refsem.Draft2020 {
+		single = append(single, "unevaluatedProperties", "unevaluatedItems", "contentSchema", "items")
+		arrays = append(arrays, "prefixItems")
+		maps = append(maps, "$defs", "dependentSchemas")
+	} else {
+		single = append(single, "additionalItems")
+		arrays = append(arrays, "items")
+		maps = append(maps, "definitions", "dependencies")
+	}
+	for _, kw := range single {
+		mx[kw] = mark()
+		ptrs = append(ptrs, "/"+kw)
+	}
+	for _, kw := range arrays {
+		mx[kw] = A{mark(), mark()}
+		ptrs = append(ptrs, "/"+kw+"/0", "/"+kw+"/1")
+	}
+	for _, kw := range maps {
+		mm := J{}
+		for _, k := range keys {
+			if kw == "patternProperties" && (k == "%" || k == "+1" || k == "%25") {
+				continue // not valid regular expressions / irrelevant
+			}
+			mm[k] = mark()
+			ptrs = append(ptrs, "/"+kw+"/"+esc(k))
+		}
+		mx[kw] = mm
+	}
+	var out []*Skeleton
+	defsKw := "$defs"
+	if draft == refsem.Draft7 {
+		defsKw = "definitions"
+	}
+	add := func(name, ref string) {
+		doc := J{defsKw: J{"max": mx}, "properties": J{"r": J{"$ref": ref}}}
+		sk := &Skeleton{Name: fmt.Sprintf("F-ptr/d%d.%s", draft, name), Family: "F-ptr", Doc: js(doc), Draft: draft}
+		sk.Tm = &sx.Tmpl{Depth: 1, MaxLen: 0, Keys: []string{"r"}}
+		out = append(out, sk)
+	}
+	for _, p := range ptrs {
+		add(p, "#"+pct("/"+defsKw+"/max"+p))
+	}
+	// invalid or dangling pointers: Resolve must fail
+	for _, bad := range []string{"/allOf/2", "/allOf/-", "/allOf/01", "/allOf/+1", "/allOf/-0", "/allOf/1x", "/allOf/", "/properties/zz", "/not/not", "/nope", "/properties", "/allOf", "/properties/~", "/properties/~2", "/required/0", "/type"} {
+		add("bad:"+bad, "#"+pct("/"+defsKw+"/max"+bad))
+	}
+	return out
 }
